@@ -330,14 +330,14 @@ Proof.
     try contradiction.
   - destruct (existsb _ (eb_hblocks b)); cbn; [contradiction|]. intros [<-|[]]. reflexivity.
   - destruct (existsb _ (eb_hblocks b)); cbn; [contradiction|].
-    destruct (afind t (s_blocks s)) as [n|]; cbn; [|contradiction].
+    destruct (afind_last t (s_blocks s)) as [n|]; cbn; [|contradiction].
     destruct (decode_spec b n t fe it les) as [u|v iname]; cbn; [contradiction|].
     destruct (unmark v) as [fv m]. destruct (is_known fv).
     + unfold xres_concat. cbn [fst]. rewrite map_map. intro H. apply in_concat in H as [l [Hl Hb]].
       apply in_map_iff in Hl as [kv [<- _]]. apply new_block_type in Hb. subst. reflexivity.
     + intro H. apply new_block_type in H. subst. reflexivity.
   - destruct (existsb _ (eb_hblocks b)); cbn; [contradiction|].
-    destruct (afind t (s_blocks s)); cbn; contradiction.
+    destruct (afind_last t (s_blocks s)); cbn; contradiction.
 Qed.
 
 (* PartialContent and Content differ, per raw block, only in reporting a dynamic block whose
@@ -350,7 +350,7 @@ Definition dyn_type (d : ditem) : option (list Z) :=
   end.
 Definition unk_type (b : ebody) (s : schema1) (d : ditem) : bool :=
   match dyn_type d with
-  | Some t => negb (hid_block b t) && is_none (afind t (s_blocks s))
+  | Some t => negb (hid_block b t) && is_none (afind_last t (s_blocks s))
   | None => false
   end.
 Lemma expand_block1_partial b s d :
@@ -363,18 +363,18 @@ Proof.
     rewrite ?hidt_eq; try (repeat split; reflexivity).
   - destruct (hid_block b t); repeat split; reflexivity.
   - destruct (hid_block b t); [repeat split; reflexivity|].
-    destruct (afind t (s_blocks s)); cbn [negb andb is_none]; [|repeat split; reflexivity].
+    destruct (afind_last t (s_blocks s)); cbn [negb andb is_none]; [|repeat split; reflexivity].
     rewrite orb_false_r. repeat split; reflexivity.
   - destruct (hid_block b t); [repeat split; reflexivity|].
-    destruct (afind t (s_blocks s)); repeat split; reflexivity.
+    destruct (afind_last t (s_blocks s)); repeat split; reflexivity.
 Qed.
 
 (* expand_block1 reads the body only through forEachCtx, iteration, valueMarks and the hidden
-   test for the item's type, and the schema only through the first header of that type *)
+   test for the item's type, and the schema only through the LAST header of that type *)
 Lemma expand_block1_congr b b' s s' p d :
   eb_fctx b = eb_fctx b' -> eb_iter b = eb_iter b' -> eb_marks b = eb_marks b' ->
   (forall t, real_type d = Some t ->
-     hid_block b t = hid_block b' t /\ afind t (s_blocks s) = afind t (s_blocks s')) ->
+     hid_block b t = hid_block b' t /\ afind_last t (s_blocks s) = afind_last t (s_blocks s')) ->
   expand_block1 b s p d = expand_block1 b' s' p d.
 Proof.
   intros Hf Hi Hm H.
@@ -409,9 +409,9 @@ Proof.
     apply afind_last_none_iff in H. rewrite H. reflexivity.
   - destruct (hid_block eb t) eqn:Hh; [destruct (native_block_ok _ _); reflexivity|].
     destruct H as [H|H]; [discriminate|].
-    apply afind_none_iff in H. rewrite H. destruct (native_block_ok _ _); reflexivity.
+    apply afind_last_none_iff in H. rewrite H. destruct (native_block_ok _ _); reflexivity.
   - destruct (hid_block eb t); [destruct (native_block_ok _ _); reflexivity|].
-    destruct (afind t (s_blocks s)); destruct (native_block_ok _ _); reflexivity.
+    destruct (afind_last t (s_blocks s)); destruct (native_block_ok _ _); reflexivity.
   - destruct (native_block_ok _ _); reflexivity.
 Qed.
 
@@ -496,10 +496,10 @@ Proof.
       * apply afind_last_none_iff in Hl. unfold block_types1. rewrite Hl. reflexivity.
   - destruct (dyn_header_flags eb s (DDynamic t fe it les content) 1 Hok Hs eq_refl I) as [-> [-> ->]].
     cbn [visible consumed1 reportable real_type dyn_type Z.eqb Pos.eqb negb orb andb].
-    unfold block_types1. rewrite afind_is_none, !andb_true_r. reflexivity.
+    unfold block_types1. rewrite afind_last_is_none, !andb_true_r. reflexivity.
   - destruct (dyn_header_flags eb s (DDynBad (Some t)) 1 Hok Hs eq_refl I) as [-> [-> ->]].
     cbn [visible consumed1 reportable real_type dyn_type Z.eqb Pos.eqb negb orb andb].
-    unfold block_types1. rewrite afind_is_none, !andb_true_r. reflexivity.
+    unfold block_types1. rewrite afind_last_is_none, !andb_true_r. reflexivity.
   - destruct (dyn_header_flags eb s (DDynBad None) 0 Hok Hs eq_refl I) as [-> [-> ->]].
     reflexivity.
 Qed.
@@ -654,7 +654,7 @@ Proof.
     intros E H; try discriminate; injection E as ->; rewrite hidt_eq, H; reflexivity.
 Qed.
 Lemma unknown_partial_nil b s d t :
-  dyn_type d = Some t -> afind t (s_blocks s) = None -> expand_block1 b s true d = xres_nil.
+  dyn_type d = Some t -> afind_last t (s_blocks s) = None -> expand_block1 b s true d = xres_nil.
 Proof.
   destruct d as [n e|t' ls body|t' fe it les content|[t'|]]; cbn [dyn_type expand_block1];
     intros E H; try discriminate; injection E as ->; rewrite H;
@@ -758,9 +758,8 @@ Section TwoStep.
   Proof.
     intros Hr Hm. apply expand_block1_congr; try reflexivity.
     intros t' Ht'. rewrite Hr in Ht'. injection Ht' as <-. split; [reflexivity|].
-    unfold u. cbn [union1 s_blocks]. rewrite afind_app.
-    destruct (afind t (s_blocks s1)) eqn:E; [reflexivity|].
-    apply afind_none_iff in E. unfold block_types1 in Hm. congruence.
+    unfold u. cbn [union1 s_blocks]. rewrite afind_last_app.
+    destruct (ts_in1 t Hm) as [_ [Hm2 _]]. apply afind_last_none_iff in Hm2. rewrite Hm2. reflexivity.
   Qed.
   Lemma ts_step_notin1 p d t : real_type d = Some t -> str_mem t (block_types1 s1) = false ->
     expand_block1 eb u p d = expand_block1 r1 s2 p d.
@@ -768,8 +767,8 @@ Section TwoStep.
     intros Hr Hm. apply expand_block1_congr; try reflexivity.
     intros t' Ht'. rewrite Hr in Ht'. injection Ht' as <-. split.
     - unfold r1. rewrite rest_hid_block, Hm, orb_false_r. reflexivity.
-    - unfold u. cbn [union1 s_blocks]. rewrite afind_app.
-      apply afind_none_iff in Hm. rewrite Hm. reflexivity.
+    - unfold u. cbn [union1 s_blocks]. rewrite afind_last_app.
+      apply afind_last_none_iff in Hm. rewrite Hm. destruct (afind_last t (s_blocks s2)); reflexivity.
   Qed.
   Lemma ts_r1_hidden s p d t : real_type d = Some t -> str_mem t (block_types1 s1) = true ->
     expand_block1 r1 s p d = xres_nil.
@@ -789,10 +788,10 @@ Section TwoStep.
     destruct (str_mem t (block_types1 s1)) eqn:Hm.
     - rewrite (ts_step_in1 _ _ _ Hr Hm), (ts_r1_hidden _ _ _ _ Hr Hm).
       destruct (expand_block1_partial eb s1 d) as [_ [-> ->]]. unfold unk_type. rewrite Hd.
-      unfold block_types1 in Hm. rewrite afind_is_none, Hm. cbn. rewrite andb_false_r, !orb_false_r.
+      unfold block_types1 in Hm. rewrite afind_last_is_none, Hm. cbn. rewrite andb_false_r, !orb_false_r.
       split; reflexivity.
     - rewrite (ts_step_notin1 _ _ _ Hr Hm).
-      apply afind_none_iff in Hm. rewrite (unknown_partial_nil _ _ _ _ Hd Hm). split; reflexivity.
+      apply afind_last_none_iff in Hm. rewrite (unknown_partial_nil _ _ _ _ Hd Hm). split; reflexivity.
   Qed.
 
   Lemma ts_dyn_flags d n : raw_header d = Some (s_dynamic, n) ->
